@@ -12,6 +12,8 @@ def items(tier):
         for L in range(0, maxL + 1):
             out.append({"id": "C02|%s|FindIndex|L%d|%s" % (p, L, alpha or "full"), "Harness": "C02", "Pattern": p, "API": "FindIndex", "L": L, "Alpha": alpha,
                         "strategy": strat, "reach": ["match", "nomatch"] if L == maxL else None})
+        for pre, post in corpus.windows(p):
+            out.append({"id": "C02|%s|FindIndex|L%d|%s|w%s+%s" % (p, maxL, alpha or "full", pre.encode().hex(), post.encode().hex()), "Harness": "C02", "Pattern": p, "API": "FindIndex", "L": maxL, "Alpha": alpha, "Pre": pre, "Post": post, "strategy": strat})
         for api in ["Find", "FindStringIndex", "FindString"]:
             out.append({"id": "C02|%s|%s|L2|%s" % (p, api, alpha or "full"), "Harness": "C02", "Pattern": p, "API": api, "L": 2, "Alpha": alpha, "strategy": strat})
     return out
